@@ -344,6 +344,14 @@ func (s *SweepSvc) Do(req *Msg, res *Msg) error {
 	*res = specReply(req)
 	return nil
 }
+// Doc answers every call with the same slice, which it keeps (a cached document)
+var sweepDoc = bytes.Repeat([]byte("cached document. "), 20)
+
+func (s *SweepSvc) Doc(req *[]byte, res *[]byte) error {
+	*res = sweepDoc
+	return nil
+}
+
 func (s *SweepSvc) DoB(req *[]byte, res *[]byte) error {
 	if s.keep {
 		s.mu.Lock()
@@ -357,6 +365,17 @@ func (s *SweepSvc) DoB(req *[]byte, res *[]byte) error {
 	h := sha256.Sum256(*req)
 	*res = append(h[:], bytes.Repeat([]byte{7}, len(*req))...)
 	return nil
+}
+
+// callT is Conn.Call with a deadline: a call that never completes is an outcome to report, not to wait for
+func callT(conn *rpc.Conn, method string, args, reply interface{}) error {
+	call := conn.Go(method, args, reply, make(chan *rpc.Call, 1))
+	select {
+	case <-call.Done:
+		return call.Error
+	case <-time.After(8 * time.Second):
+		return errors.New("NEVER COMPLETED (8s)")
+	}
 }
 
 type sweepCfg struct {
@@ -428,6 +447,7 @@ func runSweepOne(e *Env, dir string, k int, c sweepCfg) []string {
 		}
 	}
 	sizes = append(sizes, 20, 30, 40) // further traffic: what was kept earlier must survive it
+	sizes = append(sizes, 94, 95, 96)  // replies of 127, 128, 129 bytes under the bytes codec (32-byte digest + request)
 	for i, n := range sizes {
 		data := bytes.Repeat([]byte{byte('a' + i)}, n)
 		if c.body == "bytes" {
@@ -436,7 +456,7 @@ func runSweepOne(e *Env, dir string, k int, c sweepCfg) []string {
 				req[0] = 'F'
 			}
 			var res []byte
-			err := conn.Call("Sweep.DoB", &req, &res)
+			err := callT(conn, "Sweep.DoB", &req, &res)
 			h := sha256.Sum256(req)
 			want := append(h[:], bytes.Repeat([]byte{7}, len(req))...)
 			switch {
@@ -456,7 +476,7 @@ func runSweepOne(e *Env, dir string, k int, c sweepCfg) []string {
 			req.Text = "fail"
 		}
 		var res Msg
-		err := conn.Call("Sweep.Do", req, &res)
+		err := callT(conn, "Sweep.Do", req, &res)
 		want := specReply(req)
 		switch {
 		case i == 4:
@@ -470,12 +490,22 @@ func runSweepOne(e *Env, dir string, k int, c sweepCfg) []string {
 		}
 	}
 	if c.body == "bytes" {
+		// a handler that answers with a slice it keeps: every call gets the same document
+		docs := "doc:ok"
+		for k := 0; k < 4; k++ {
+			x, d := []byte("x"), []byte(nil)
+			if err := callT(conn, "Sweep.Doc", &x, &d); err != nil || !bytes.Equal(d, []byte(strings.Repeat("cached document. ", 20))) {
+				docs = fmt.Sprintf("doc:WRONG at call %d (err=%v, %d bytes)", k, err, len(d))
+				break
+			}
+		}
+		out = append(out, docs)
 		var rb []byte
 		x := []byte("x")
-		err = conn.Call("Sweep.Nope", &x, &rb)
+		err = callT(conn, "Sweep.Nope", &x, &rb)
 	} else {
 		var r0 Msg
-		err = conn.Call("Sweep.Nope", &Msg{}, &r0)
+		err = callT(conn, "Sweep.Nope", &Msg{}, &r0)
 	}
 	out = append(out, fmt.Sprintf("unknown:err=%v", err))
 	out = append(out, fmt.Sprintf("ping:err=%v", conn.Ping()))
@@ -491,7 +521,7 @@ func runSweepOne(e *Env, dir string, k int, c sweepCfg) []string {
 
 func refTranscript(body string) []string {
 	var out []string
-	for i := 0; i < 17; i++ {
+	for i := 0; i < 20; i++ {
 		if i == 4 {
 			if body == "bytes" {
 				out = append(out, "4:err=handler says no")
@@ -501,6 +531,9 @@ func refTranscript(body string) []string {
 		} else {
 			out = append(out, fmt.Sprintf("%d:ok", i))
 		}
+	}
+	if body == "bytes" {
+		out = append(out, "doc:ok")
 	}
 	out = append(out, "unknown:err=can't find service Sweep.Nope", "ping:err=<nil>", "kept-arguments-changed:0")
 	return out
